@@ -26,6 +26,12 @@ type Standin struct {
 }
 
 var propStandins = map[string][]Standin{
+	"C14": {{
+		Name: "parse-totality", Pkg: "internal/query", TestFile: "parse_standin_test.go", TestName: "TestC14Standin", OutEnv: "C14_OUT",
+		EnvQuick: []string{"C14_TEXTS=6000"}, EnvThorough: []string{"C14_TEXTS=60000"},
+		Bound:   "the parser as a whole (participle grammar, every capture function, translation into conditions, Clean): 6000 (quick) / 60000 (thorough) seeded query texts - expressions of depth <= 2 over every filter kind with value lists, ranges, arithmetic on variables (also cancelling terms), host masks, relative and absolute times, tag name lists, converter names, sort/limit/group terms, sub-query prefixes, AND/OR/THEN/NOT and brackets, with edge values (empty list elements, huge numbers, malformed addresses and expressions); every third text is additionally damaged by one random edit (deleted, doubled or inserted character, truncation). Parse must return within 20 s without panicking; an accepted text parsed twice gives the same normal form, which prints without panicking. Texts with more than 6 list separators/ORs/negated brackets are skipped (exponential normal forms are outside the promptness claim)",
+		Timeout: 10 * time.Minute,
+	}},
 	"C10": {{
 		Name: "view-stability", Pkg: "internal/index/manager", TestFile: "view_standin_test.go", TestName: "TestC10Standin", OutEnv: "C10_OUT",
 		EnvQuick: []string{"C10_HISTORIES=25", "C10_LEN=12"}, EnvThorough: []string{"C10_HISTORIES=250", "C10_LEN=16"},
@@ -34,8 +40,8 @@ var propStandins = map[string][]Standin{
 	}},
 	"C07": {{
 		Name: "merge-roundtrip", Pkg: "internal/index", TestFile: "roundtrip_standin_test.go", TestName: "TestC01Standin", OutEnv: "C01_OUT",
-		EnvQuick: []string{"C01_MERGE=1", "C01_ROUNDS=60"}, EnvThorough: []string{"C01_MERGE=1", "C01_ROUNDS=600"},
-		Bound:   "merging as a whole (newest-wins skipping, payload and packet copy, host remapping, time re-basing, lookups of the merged files; only the re-basing arithmetic and the manager's splice are under contract): 60 (quick) / 600 (thorough) seeded groups of 2-4 index files with 1-6 streams each over 10 stream ids, later files holding newer versions of some ids, files written with reference times up to 1000 h apart, stream shapes as in the C01 round-trip stand-in (long packet lists, payload around 64 KiB, wrapping relative times); after index.Merge the merged files together hold exactly one record per visible id and return the newest version of every stream exactly as it was written (hosts, ports, protocol, byte counts, first/last time, every packet's capture source/direction/time, payload per direction in order with its time stamps)",
+		EnvQuick: []string{"C01_MERGE=1", "C01_ROUNDS=60", "C01_MERGE_HOSTS=4000"}, EnvThorough: []string{"C01_MERGE=1", "C01_ROUNDS=600", "C01_MERGE_HOSTS=4090"},
+		Bound:   "merging as a whole (newest-wins skipping, payload and packet copy, host remapping, time re-basing, lookups of the merged files; only the re-basing arithmetic and the manager's splice are under contract): 60 (quick) / 600 (thorough) seeded groups of 2-4 index files with 1-6 streams each over 10 stream ids, later files holding newer versions of some ids, files written with reference times up to 1000 h apart, stream shapes as in the C01 round-trip stand-in (long packet lists, payload around 64 KiB, wrapping relative times); after index.Merge the merged files together hold exactly one record per visible id and return the newest version of every stream exactly as it was written (hosts, ports, protocol, byte counts, first/last time, every packet's capture source/direction/time, payload per direction in order with its time stamps); plus one merge of a file with 4000 / 4090 IPv6 hosts and an older file with 200 more that share the server (host remapping overflowing a host group)",
 		Timeout: 20 * time.Minute,
 	}},
 	"C01": {{
@@ -57,6 +63,11 @@ var propStandins = map[string][]Standin{
 		Timeout: 10 * time.Minute,
 	}},
 	"C06": {{
+		Name: "tag-freshness", Pkg: "internal/index/manager", TestFile: "fresh_standin_test.go", TestName: "TestC06FreshStandin", OutEnv: "C06_OUT",
+		EnvQuick: []string{"C06_HISTORIES=30", "C06_LEN=8"}, EnvThorough: []string{"C06_HISTORIES=300", "C06_LEN=10"},
+		Bound:   "freshness of decided tags after a history (not a proof about interleavings: the scheduler's interleaving of job completions with the calls is whatever happens in the run): 30 (quick) / 300 (thorough) seeded histories of 8 / 10 manager calls out of AddTag (tag/a, tag/b, service/s with plain, payload, negated, tag-referencing and sub-query-referencing definitions; mark/m), definition updates, mark add/delete, imports of more packets (new streams and more data for existing conversations), short pauses; then the service is left alone until no job runs and no tag reports undecided streams (30 s limit), and for every tag the search `tag:x` must return exactly the streams the search for its current definition returns",
+		Timeout: 10 * time.Minute,
+	}, {
 		Name: "tag-search", Pkg: "internal/index", TestFile: "search_standin_test.go", TestName: "TestC02Standin", OutEnv: "C02_OUT",
 		EnvQuick: []string{"C02_TAGS=1", "C02_ROUNDS=40", "C02_QUERIES=60"}, EnvThorough: []string{"C02_TAGS=1", "C02_ROUNDS=200", "C02_QUERIES=80"},
 		Bound:   "searches that use tag filters while tags are partly undecided (sequential: no job runs during a search): the search-oracle stand-in of C02 (populations of up to 9 stream ids over 1-3 index files, generated queries, sort keys, limits, pages) with three tags tag/ta, tag/tb, tag/tc per population - random decided-match sets, random undecided sets (with stale match bits under undecided streams), generated definitions of depth <= 2 that may name earlier tags - passed to SearchStreams as TagDetails; a tag filter must select a decided stream by its match bit and an undecided stream by the tag's definition, also under negation, in conjunctions of all three tags and through tags that name tags; 40 (quick) / 200 (thorough) populations x 60 / 80 queries. Not covered: interleavings of job completions with API calls (the property's main quantifier), imports, marks, converters",
